@@ -101,6 +101,37 @@ func c03Run(x *core.Ctx) {
 			}
 		}
 	}
+	// characters that decoders and scanners treat specially (the replacement character, the last BMP characters, C1
+	// controls, line and paragraph separators, a no-break space), each inside every kind of token that holds text and
+	// between tokens
+	for ci, ch := range []string{"\uFFFD", "\uFFFE", "\uFFFF", "\u0080", "\u0085", "\u00A0", "\u2028", "\u2029", "\u3000", "\uD7FF", "\uE000", "\u200B"} {
+		if ci%x.NShards != x.Shard {
+			continue
+		}
+		for _, f := range []string{"# caf%s au lait\n b", "\"caf%s\" b", "\"\"\"caf%s\n  x\"\"\" b", "\"\"\"%s\"\"\"", "a %s b", "a%s", "#%s", "\"\\n%s\" b", "\"\"\"\n %s\n\"\"\""} {
+			s := fmt.Sprintf(f, ch)
+			x.DoLite("src", "src", s, func() { c03Compare(x, s) })
+		}
+	}
+	// lexemes longer than the buffers line readers and scanners start with (64 KiB and a bit, 1 MiB and a bit)
+	if x.Shard < 6 {
+		for _, n := range []int{65536 + 7, 70001, 1<<20 + 3} {
+			if !x.Quick() || n < 1<<20 {
+				long := strings.Repeat("abcdefghi ", n/10)
+				word := strings.Repeat("a1_", n/3)
+				for k, s := range []string{
+					"\"\"\"" + long + "\"\"\" b", "\"\"\"first\n  " + long + "\n  last\"\"\" b", "# " + long + "\nb", "\"" + long + "\" b", word + " b", strings.Repeat("7", n) + " b",
+					"\"\"\"\n" + strings.Repeat("  x\n", n/4) + "\"\"\" b", "a" + strings.Repeat(" ", n) + "b", "a" + strings.Repeat("\n", n) + "b",
+				} {
+					if k%6 == x.Shard {
+						s := s
+						x.DoLite("src", "src", s, func() { c03Compare(x, s) })
+						x.Count("long_lexemes")
+					}
+				}
+			}
+		}
+	}
 	r := x.Rand(uint64(x.Shard))
 	per := nRandom / x.NShards
 	for i := 0; i < per; i++ {
@@ -147,6 +178,16 @@ func randomLexSoup(r *core.Rand, pieces []string, n int) string {
 
 func c03Compare(x *core.Ctx, src string) {
 	rr := ref.Lex(src)
+	frame := false
+	if rr.Abstain == "surrogate-escape" && !strings.Contains(src, `""""`) {
+		// \uD800-\uDFFF: the October 2021 grammar admits any four hex digits, what the VALUE of such an escape is it does
+		// not say (the reference abstains on that), but the text still is a token sequence: kinds, extents and where lexing
+		// fails are judged, the values of quoted strings are not
+		if fr := ref.LexFrame(src); fr.Abstain == "" {
+			rr, frame = fr, true
+			x.Count("surrogate_escape_texts_judged_for_kinds_and_extents")
+		}
+	}
 	if rr.Abstain != "" {
 		x.Count("abstain:" + rr.Abstain)
 		return
@@ -203,7 +244,7 @@ func c03Compare(x *core.Ctx, src string) {
 				x.Violate(fmt.Sprintf("extent-differs(%s)", rt.Kind), describeImplTok(it), describeRefTok(rt))
 				return
 			}
-			if ik != ref.KPunct && iv != rt.Value {
+			if ik != ref.KPunct && iv != rt.Value && !(frame && rt.Kind == ref.KString) {
 				x.Violate(fmt.Sprintf("value-differs(%s:%s)", rt.Kind, valueSubReason(src, rt, iv)), describeImplTok(it), describeRefTok(rt))
 				return
 			}
